@@ -69,6 +69,15 @@ MayRefuse(ref) == \E i \in 1..Len(ref) : ref[i][1] = "st" /\ ref[i][2] \in {n_se
 \* allows (adjusted current node is an SVG / MathML element, here an integration point) was not recognised
 cCDATA == <<91, 67, 68, 65, 84, 65, 91>>
 SigS17(o) == \E i \in 1..Len(o.toks) : o.toks[i].k = "cm" /\ Len(o.toks[i].text) >= 7 /\ SubSeq(o.toks[i].text, 1, 7) = cCDATA
+\* every tag is announced to the controller (where selector matching runs) exactly once, as what it is: o.hints
+\* is the sequence of TransformController::handle_start_tag / handle_end_tag calls (name known when hashable);
+\* this is the observable counterpart of ModeSwitch!MatchedAll
+HintsOk(ref, o) ==
+  LET tags == SelectSeq(ref, LAMBDA t : t[1] \in {"st", "et"}) IN
+  \* (a document that ends inside a tag has one more announcement in scanner mode: the tag was announced at the
+  \* end of its name and never became a token)
+  /\ Len(o.hints) \in {Len(tags), Len(tags) + 1}
+  /\ \A i \in 1..Len(tags) : o.hints[i][1] = tags[i][1] /\ (o.hints[i][2] = <<>> \/ o.hints[i][2] = tags[i][2])
 \* "ok" | "inconclusive" | "C03: ..." (a violation)
 ObsVerdict(r, ref, h5s, o) ==
   LET want == Want(o.flags)  exp == Restrict(ref, want)  got == ObsShape(o.toks, want) IN
@@ -80,6 +89,8 @@ ObsVerdict(r, ref, h5s, o) ==
   \* the WHATWG claim is made for strict-mode runs; a non-strict run is only required to equal the
   \* successful strict run (StrictSame)
   ELSE IF ~o.strict THEN "ok"
+  ELSE IF (got = exp \/ got = NonEmpty(Merge(exp))) /\ ~HintsOk(ref, o) /\ ref = h5s
+       THEN "C03: a tag was not announced to selector matching exactly once as what it is (" \o o.variant \o ")"
   ELSE IF got = exp THEN "ok"
   \* text-only / comment-only captures merge text across dropped tokens: compare after the same merge
   ELSE IF got = NonEmpty(Merge(exp)) THEN "ok"
@@ -96,7 +107,7 @@ Fold(r, ref, h5s, i, acc) ==
 
 \* a strict run that succeeds is identical to the non-strict run
 StrictSame(r) == \A i, j \in 1..Len(r.obs) :
-   (r.obs[i].flags = r.obs[j].flags /\ r.obs[i].cuts = r.obs[j].cuts /\ r.obs[i].res = "ok" /\ r.obs[j].res = "ok") => r.obs[i].toks = r.obs[j].toks
+   (r.obs[i].flags = r.obs[j].flags /\ r.obs[i].cuts = r.obs[j].cuts /\ r.obs[i].res = "ok" /\ r.obs[j].res = "ok") => (r.obs[i].toks = r.obs[j].toks /\ r.obs[i].hints = r.obs[j].hints)
 
 \* known finding S3: the divergence happens while html5ever's tree builder is inside a <template> that has
 \* seen a table-structure tag (col / colgroup / caption / tbody / tr / td ...) -- structural signature
